@@ -1078,6 +1078,32 @@ func registerVFS(p *Program) {
 		}
 		return in.intConst(int64(len(fs.snaps) - 1))
 	}
+	// vpFsSnapshotNoTmp: like vpFsSnapshot but ignores the work area <dir>/.tmp
+	I["vp:vpFsSnapshotNoTmp"] = func(in *Interp, fr *frame, a []Value) Value {
+		fs := in.env.FS()
+		was, armed := fs.tracing, fs.faultArmed
+		fs.tracing, fs.faultArmed = false, false
+		r := fs.resolve(a[0].(Str), true)
+		fs.tracing, fs.faultArmed = was, armed
+		if r.errno != 0 || r.ino == nil {
+			fs.snaps = append(fs.snaps, nil)
+		} else {
+			c := fs.cloneTree(r.ino)
+			var keep []*dirent
+			for _, e := range c.entries {
+				if n, ok := e.name.Concrete(); ok && n == ".tmp" {
+					continue
+				}
+				keep = append(keep, e)
+			}
+			c.entries = keep
+			fs.snaps = append(fs.snaps, c)
+		}
+		return in.intConst(int64(len(fs.snaps) - 1))
+	}
+	I["vp:vpFaultWhere"] = func(in *Interp, fr *frame, a []Value) Value {
+		return in.strConst(in.env.FS().faultDesc)
+	}
 	I["vp:vpFsSame"] = func(in *Interp, fr *frame, a []Value) Value {
 		fs := in.env.FS()
 		x, y := fs.snaps[in.concInt(a[0])], fs.snaps[in.concInt(a[1])]
